@@ -23,6 +23,12 @@ CHECKS = {
  "C08": dict(level="fault_enumeration", family="ioerr", ref="6.6",
    technique="deterministic simulation: EIO/ENOSPC injected at every logical data/parity read and parity write of sync and scrub (addressed by file+offset), under io-cache depths 1..128 and seeded schedules",
    text="The I/O targets of a scenario are read off a fault-free trace and each fails once (alone or in pairs) under several cache depths and schedules; judged by exit status, diagnostics, summary:error_io, the state of the hit stripe in the decoded content against the independent parity oracle, the other stripes, and the fix -e / sync / scrub -p bad repair path."),
+ "C09": dict(level="fault_enumeration", family="content-damage", ref="6.7",
+   technique="deterministic simulation: flipped/truncated stored bytes of content files from simulated histories loaded under ASan+UBSan with small stream buffers; kills enumerated inside save-verify-rename",
+   text="(a) every sampled (quick) or every single (thorough) bit flip, byte substitution and truncation length of content files of all shapes is installed as the first copy and loaded by status/diff/list/check/sync/scrub in the sanitizer build with the stream buffer size as a knob: must stop with an error, modify nothing, no sanitizer report. (b) the crash family kills at every mutation of the save-verify-rename sequence: each present copy must be a complete (checksum-valid) file and after a command that saved all copies are byte-identical."),
+ "C11": dict(level="exploration", family="converge", ref="6.9",
+   technique="deterministic simulation: seeded file-system change histories with virtual inodes (reuse, restore), seeded directory order and scan-thread schedules; reference comparison of decoded content vs a walk of the disks",
+   text="Seeded histories of the listed file-system operations between syncs under all scan orders, with/without UUIDs, parallel/sequential scans. Before each sync the diff verdict must match the comparison of the decoded content with a walk of the disks (and the incomplete-sync rule); after a successful complete sync every new/changed file was read, content == disks, diff 0, list == disks, check 0."),
 }
 NA = [
  ("C02", "pure function of (nd, np, size, buffers, variant): no schedule, clock, fault, crash point or history for a simulator to own"),
